@@ -3,6 +3,7 @@
 //!  * natively (replay crate):     the same functions run on a concrete model (see `sym`).
 #![allow(clippy::all)]
 #![allow(static_mut_refs)]
+#![allow(unused_imports)]
 
 #[macro_use]
 pub mod sym;
